@@ -24,6 +24,14 @@ type vReader struct {
 	// (or before the fault) returns them together with the error, as
 	// io.Reader allows, instead of on the next call
 	withErr bool
+	faultErr error // the error a fault returns (default vErrFault)
+}
+
+func (r *vReader) fault() error {
+	if r.faultErr != nil {
+		return r.faultErr
+	}
+	return vErrFault
 }
 
 var vErrFault = errors.New("verif: injected read fault")
@@ -37,7 +45,7 @@ func (r *vReader) Read(p []byte) (int, error) {
 		r.maxEnd = r.pos + len(p)
 	}
 	if r.failAt >= 0 && r.pos >= r.failAt {
-		return 0, vErrFault
+		return 0, r.fault()
 	}
 	avail := len(r.data) - r.pos
 	if r.failAt >= 0 && r.failAt-r.pos < avail {
@@ -57,7 +65,7 @@ func (r *vReader) Read(p []byte) (int, error) {
 	r.pos += n
 	if r.withErr {
 		if r.failAt >= 0 && r.pos >= r.failAt {
-			return n, vErrFault
+			return n, r.fault()
 		}
 		if r.pos >= len(r.data) {
 			return n, io.EOF
